@@ -535,7 +535,7 @@ var declKinds = map[string]bool{"int": true, "string": true, "St": true, "*St": 
 
 var repKinds = map[string]bool{"int": true, "string": true, "[]byte": true, "error": true, "St": true, "*St": true,
 	"[]int": true, "map[string]int": true, "chan int": true, "func()": true, "iter.Seq[int]": true, "float64": true,
-	"tp:any": true, "tp:~[]byte|~string": true, "tp2:P~[]E": true}
+	"EmbG": true, "[4]byte": true, "tp:any": true, "tp:~[]byte|~string": true, "tp2:P~[]E": true}
 
 func main() {
 	out := flag.String("out", "", "output directory (scratch module)")
